@@ -109,7 +109,12 @@ Definition set_safe (f : fnsig) : fnsig :=
 Definition find_fn (fs : list fnsig) (owner name : string) : option fnsig :=
   find (fun f => String.eqb (fs_owner f) owner && String.eqb (fs_name f) name) fs.
 
-(** ** The [alloc_zst] guard *)
+(** ** The [alloc_zst] guard
+
+    The translator emits the body of [alloc_zst] as a decision tree ([Syntax.zbody]) over the
+    conditions it found in the source, spelled as in the source.  Nothing below depends on HOW the
+    guard is spelled: [zbody_canonical] decides, semantically, that the tree returns [Some] exactly
+    when [size_of::<T>() == 0] and [align_of::<T>() <= MAX_ALIGN]. *)
 Definition eval_zexpr (size align maxa : N) (e : zexpr) : option N :=
   match e with
   | ZSizeOf => Some size
@@ -129,13 +134,29 @@ Fixpoint eval_zcond (size align maxa : N) (c : zcond) : option bool :=
   | ZLt a b => lift2 N.ltb (eval_zexpr size align maxa a) (eval_zexpr size align maxa b)
   | ZAnd a b => lift2 andb (eval_zcond size align maxa a) (eval_zcond size align maxa b)
   | ZOr a b => lift2 orb (eval_zcond size align maxa a) (eval_zcond size align maxa b)
+  | ZNot a => option_map negb (eval_zcond size align maxa a)
   | ZTrue => Some true
   | ZUnknownC _ => None
   end.
 
-(** [alloc_zst] returns the anchor address iff the guard evaluates to true. *)
-Definition alloc_zst_model (c : zcond) (anchor size align maxa : N) : option N :=
-  match eval_zcond size align maxa c with
+(** Does the body return [Some(..)] (the cached pointer)?  [None] = the tree contains something the
+    translator could not interpret on the path taken. *)
+Fixpoint body_hit (size align maxa : N) (b : zbody) : option bool :=
+  match b with
+  | ZRetSome => Some true
+  | ZRetNone => Some false
+  | ZIf c t e =>
+      match eval_zcond size align maxa c with
+      | Some true => body_hit size align maxa t
+      | Some false => body_hit size align maxa e
+      | None => None
+      end
+  | ZUnknownB _ => None
+  end.
+
+(** [alloc_zst] returns the anchor address iff its body reaches a [Some(..)] leaf. *)
+Definition alloc_zst_model (b : zbody) (anchor size align maxa : N) : option N :=
+  match body_hit size align maxa b with
   | Some true => Some anchor
   | _ => None
   end.
@@ -147,24 +168,70 @@ Definition zexpr_eqb (a b : zexpr) : bool :=
   | _, _ => false
   end.
 
-Definition is_size_zero (c : zcond) : bool :=
+(** The two facts the guard is about.  A comparison of the source is recognised as one of them or
+    its negation (over the naturals: [size <= 0], [size < 1], [!(size > 0)] all say [size == 0];
+    [MAX_ALIGN < align] is the negation of [align <= MAX_ALIGN]); any other comparison is not
+    interpreted (fail closed). *)
+Inductive zprop := PSizeZero | PAlignFits.
+
+Definition classify_atom (c : zcond) : option (zprop * bool) :=
   match c with
-  | ZEq a b => (zexpr_eqb a ZSizeOf && zexpr_eqb b (ZLit 0)) || (zexpr_eqb b ZSizeOf && zexpr_eqb a (ZLit 0))
-  | _ => false
+  | ZEq a b =>
+      if (zexpr_eqb a ZSizeOf && zexpr_eqb b (ZLit 0)) || (zexpr_eqb a (ZLit 0) && zexpr_eqb b ZSizeOf)
+      then Some (PSizeZero, true) else None
+  | ZLe a b =>
+      if zexpr_eqb a ZAlignOf && zexpr_eqb b ZMaxAlign then Some (PAlignFits, true)
+      else if zexpr_eqb a ZSizeOf && zexpr_eqb b (ZLit 0) then Some (PSizeZero, true)
+      else if zexpr_eqb a (ZLit 1) && zexpr_eqb b ZSizeOf then Some (PSizeZero, false)
+      else None
+  | ZLt a b =>
+      if zexpr_eqb a ZMaxAlign && zexpr_eqb b ZAlignOf then Some (PAlignFits, false)
+      else if zexpr_eqb a ZSizeOf && zexpr_eqb b (ZLit 1) then Some (PSizeZero, true)
+      else if zexpr_eqb a (ZLit 0) && zexpr_eqb b ZSizeOf then Some (PSizeZero, false)
+      else None
+  | _ => None
   end.
 
-Definition is_align_le_max (c : zcond) : bool :=
+Definition lit_val (v pos : bool) : bool := if pos then v else negb v.
+
+(** Propositional evaluation: [P] stands for [size == 0], [Q] for [align <= MAX_ALIGN]. *)
+Fixpoint peval (P Q : bool) (c : zcond) : option bool :=
   match c with
-  | ZLe a b => zexpr_eqb a ZAlignOf && zexpr_eqb b ZMaxAlign
-  | _ => false
+  | ZAnd a b => lift2 andb (peval P Q a) (peval P Q b)
+  | ZOr a b => lift2 orb (peval P Q a) (peval P Q b)
+  | ZNot a => option_map negb (peval P Q a)
+  | ZTrue => Some true
+  | ZUnknownC _ => None
+  | atom =>
+      match classify_atom atom with
+      | Some (PSizeZero, pos) => Some (lit_val P pos)
+      | Some (PAlignFits, pos) => Some (lit_val Q pos)
+      | None => None
+      end
   end.
 
-(** The guard is exactly [size_of::<T>() == 0 && align_of::<T>() <= MAX_ALIGN] (either order). *)
-Definition zcond_canonical (c : zcond) : bool :=
-  match c with
-  | ZAnd a b => (is_size_zero a && is_align_le_max b) || (is_size_zero b && is_align_le_max a)
-  | _ => false
+Fixpoint pbody (P Q : bool) (b : zbody) : option bool :=
+  match b with
+  | ZRetSome => Some true
+  | ZRetNone => Some false
+  | ZIf c t e =>
+      match peval P Q c with
+      | Some true => pbody P Q t
+      | Some false => pbody P Q e
+      | None => None
+      end
+  | ZUnknownB _ => None
   end.
+
+(** The body hands out the pointer exactly when [size_of::<T>() == 0 && align_of::<T>() <= MAX_ALIGN]
+    -- however the source spells, nests, negates, orders or early-returns it: the propositional
+    reading of the tree agrees with [P && Q] on all four valuations. *)
+Definition zbody_canonical (b : zbody) : bool :=
+  forallb (fun pq => match pbody (fst pq) (snd pq) b with
+                     | Some v => Bool.eqb v (fst pq && snd pq)
+                     | None => false
+                     end)
+          [(true, true); (true, false); (false, true); (false, false)].
 
 Definition aligned_types_ok (l : list (string * string)) : bool :=
   negb (Nat.eqb (length l) 0) && forallb (fun q => String.eqb (fst q) (snd q) && negb (String.eqb (fst q) "?")) l.
